@@ -33,14 +33,14 @@ CLAIMED = {
     },
     "C09": {
         "engine": "E3 guardfx (+E1 order)",
-        "technique": "static analysis: guard-dominates-effect over MIR CFG, constant-store dataflow on SessionParams, post-meta ordering of log pruning, set/consume pairing of the pending truncation, who-may-mutate ownership of the in-memory log, overlay-hit-is-final branch rule",
+        "technique": "static analysis: guard-dominates-effect over MIR CFG, constant-store dataflow on SessionParams, post-meta ordering of log pruning, set/consume pairing of the pending truncation, who-may-mutate ownership of the in-memory log, overlay-hit-is-final branch rule, variant-inspection rule for the delta codec (encode inspects / decode can build both variants)",
         "text": "Three clauses: an unservable rollback returns before any mutation; the rollback's own commit never records a delta nor takes the global guard; log pruning/truncation happens only after the meta switch-over and the pending truncation is consumed where it is applied; the in-memory log is mutated only by one-record push/pop operations of its owner type, each reachable only from its listed owners. Restored values are not decided.",
         "design_ref": "DESIGN.md 4 (E3), 5 (C09)",
         "note": _NOTE,
     },
     "C11": {
         "engine": "E3 guardfx (+ statusdom, shadow, mergefront)",
-        "technique": "static analysis: guard-dominates-effect over MIR CFG of the overlay commit entry points; finite-domain evaluation (MIR interpretation over the three status values) of the chain-completeness predicate; who-may-store on the status word; overlay-hit-is-final branch rule; forward frontier dataflow (value numbering over MIR) for the completeness of the stored-leaves/overlay merge",
+        "technique": "static analysis: guard-dominates-effect over MIR CFG of the overlay commit entry points; finite-domain evaluation (MIR interpretation over the three status values) of the chain-completeness predicate; who-may-store on the status word; overlay-hit-is-final branch rule; must-pass-a-filter path rule for stored items of the leaf fetch (every next() -> LeafData path passes a call on the overlay deletions and the item); forward frontier dataflow (value numbering over MIR) for the completeness of the stored-leaves/overlay merge",
         "text": "Refusal clause and three structural clauses of the read path: committing an overlay is gated by the parent-marker, lock and previous-root checks before any effect, including the committed-status flip that descendants consult; LiveOverlay::new refuses a chain exactly when the oldest supplied ancestor's parent is not COMMITTED (decided by enumerating the status domain); the status word only moves LIVE->DROPPED or ->COMMITTED; where the overlay chain is consulted a hit (including a delete) is final; the elided-subtree reconstruction copies or supersedes every stored leaf on every path. Overlay/commit behavioural equivalence is not decided.",
         "design_ref": "DESIGN.md 4 (E3), 5 (C11)",
         "note": _NOTE,
@@ -54,8 +54,8 @@ CLAIMED = {
     },
     "C14": {
         "engine": "E2 errflow",
-        "technique": "static analysis: error-discipline dataflow over MIR (no dropped I/O Result or CompleteIo.result, tasks joined and propagated, error exits after an effect poison); enumeration of the completion classifier over all I/O kinds; bounded-region termination for bucket probing; forward use analysis of partial-I/O byte counts",
-        "text": "Error discipline for every call site: no I/O-carrying Result/CompleteIo is dropped; every task result is joined and propagated; every error exit after an effect poisons; Store::commit refuses when poisoned; a failed completion can never be classified as success or retried for ever; bucket allocation is bounded; the byte count of every partial write/read is looked at. On-disk atomicity after a failure is not decided.",
+        "technique": "static analysis: error-discipline dataflow over MIR (no dropped I/O Result or CompleteIo.result, tasks joined and propagated, error exits after an effect poison); enumeration of the completion classifier over all I/O kinds; bounded-region termination for bucket probing; forward use analysis of partial-I/O byte counts; error-convention agreement for libc calls that return the error number (interprocedural use analysis through closure returns)",
+        "text": "Error discipline for every call site: no I/O-carrying Result/CompleteIo is dropped; every task result is joined and propagated; every error exit after an effect poisons; Store::commit refuses when poisoned; a failed completion can never be classified as success or retried for ever; bucket allocation is bounded; the byte count of every partial write/read is looked at; a libc call that returns the error number is never judged by the -1 test. On-disk atomicity after a failure is not decided.",
         "design_ref": "DESIGN.md 4 (E2), 5 (C14)",
         "note": _NOTE,
     },
@@ -117,7 +117,7 @@ ENGINES = [
     {"name": "E5 panicfree", "path": "rules/panicfree.py", "serves_properties": ["C18"], "kind_free_text": "panic-site inventory with guard/invariant discharge"},
     {"name": "E5-T termination", "path": "rules/termination.py", "serves_properties": ["C18"], "kind_free_text": "loop classification (finite iterator types, counter / pop structure), recursion measure"},
     {"name": "E9 reclaim", "path": "rules/reclaim.py", "serves_properties": ["C19"], "kind_free_text": "occupancy counter pairing / ownership, freed-page flow to the free list, reuse before growth, overflow-cell release chain"},
-    {"name": "E10 mergefront / shadow", "path": "rules/mergefront.py", "serves_properties": ["C11", "C09"], "kind_free_text": "frontier dataflow for the stored-leaves/overlay merge of the elided-subtree reconstruction (mergefront.py); overlay hit is final (shadow.py)"},
+    {"name": "E10 mergefront / shadow", "path": "rules/mergefront.py", "serves_properties": ["C11", "C09"], "kind_free_text": "frontier dataflow for the stored-leaves/overlay merge of the elided-subtree reconstruction (mergefront.py); overlay hit is final, stale index entries skipped, stored items filtered by overlay deletions (shadow.py); delta codec variant rule (codec.py)"},
     {"name": "E6 vguard", "path": "rules/vguard.py", "serves_properties": ["C08"], "kind_free_text": "acceptance gated by checks"},
     {"name": "E7 dirlock", "path": "rules/dirlock.py", "serves_properties": ["C20"], "kind_free_text": "lock-before-touch dominance, flag constants, lifetime"},
     {"name": "E8 witness", "path": "witness/", "serves_properties": ["C08", "C12", "C15"], "kind_free_text": "compile_fail doctests with compiling twins (cargo +nightly test --doc)"},
